@@ -30,7 +30,7 @@ FUNCTIONS = [
 ]
 BOUNDS = {
     "validators": "all ints for uint16/uint32/boolean/net.ipaddress; digest text of any length with symbolic hex-ness; lists of <= 3 carriers",
-    "plumbing": "14 field types x candidate table (6-10 candidates each) x 4 second operations x candidate; two-step histories",
+    "plumbing": "16 field types x candidate table (4-18 candidates each) x 4 second operations x candidate; two-step histories (thorough: also every three-step history)",
 }
 STUBS = [
     "binascii.a2b_hex replaced by a model that looks only at length parity and a symbolic 'all characters are hex digits' bit (content of a 32-64 character text is beyond CrossHair)",
@@ -363,8 +363,8 @@ def all_valid(rec):
     return None
 
 
-def run_steps(fidx, c1, op2, c2):
-    """-> None if the property holds on this history, else a description."""
+def run_steps(fidx, c1, op2, c2, op3=None, c3=None):
+    """-> None if the property holds on this history (two steps, or three when op3/c3 are given), else a description."""
     from flow.record.packer import RecordPacker
 
     typename, fname = FIELDS[fidx]
@@ -372,7 +372,7 @@ def run_steps(fidx, c1, op2, c2):
     D = descriptor()
     rec = baseline()
     history = []
-    for step, (op, c) in enumerate(((0, c1), (op2, c2))):
+    for step, (op, c) in enumerate(((0, c1), (op2, c2)) + (((op3, c3),) if op3 is not None else ())):
         make, ok = cands[c]
         value = make()
         before = snapshot(rec)
@@ -446,6 +446,35 @@ def plumbing(fidx: int):
     return check
 
 
+def plumbing3(fidx: int, c1: int):
+    """three-step histories (thorough tier): the first candidate is fixed by the driver, the other two operations and candidates are symbolic"""
+    from crosshair.tracers import NoTracing
+
+    ncand = len(candidates(FIELDS[fidx][0]))
+
+    def check(op2: int, c2: int, op3: int, c3: int) -> bool:
+        """
+        post: _
+        """
+        if not (0 <= c2 < ncand and 0 <= c3 < ncand and 0 <= op2 < 4 and 0 <= op3 < 4):
+            return True
+        b = c = o2 = o3 = 0
+        for j in range(ncand):
+            if c2 == j:
+                b = j
+            if c3 == j:
+                c = j
+        for j in range(4):
+            if op2 == j:
+                o2 = j
+            if op3 == j:
+                o3 = j
+        with NoTracing():
+            return run_steps(fidx, c1, o2, b, o3, c) is None
+
+    return check
+
+
 def obligations(tier, seed):
     obs = []
     to = 30 if tier == "quick" else 120
@@ -458,6 +487,10 @@ def obligations(tier, seed):
     obs.append(ob("O1-bytes", "xh", "bytes_validator", {}, timeout=to, group="O1-validator", bounds="8 kinds of argument"))
     for i, (t, n) in enumerate(FIELDS):
         obs.append(ob(f"O2-plumbing/{t}", "xh", "plumbing", {"fidx": i}, timeout=to * 4, group="O2-plumbing", bounds=f"{len(candidates(t))} candidates x 4 operations x {len(candidates(t))} candidates"))
+    if tier == "thorough":
+        for i, (t, n) in enumerate(FIELDS):
+            for c1 in range(len(candidates(t))):
+                obs.append(ob(f"O2-plumbing3/{t}/first{c1}", "xh", "plumbing3", {"fidx": i, "c1": c1}, timeout=600, group="O2-plumbing3", bounds=f"three-step histories: (4 operations x {len(candidates(t))} candidates)^2 after candidate {c1}"))
     return obs
 
 
@@ -465,6 +498,19 @@ def obligations(tier, seed):
 def replay(res):
     a = res["args"]
     gid = res["id"]
+    if "O2-plumbing3" in gid:
+        v = cex_args(res, ["op2", "c2", "op3", "c3"])
+        n = len(candidates(FIELDS[a["fidx"]][0]))
+        tries = []
+        if all(isinstance(v.get(k), int) for k in ("op2", "c2", "op3", "c3")) and 0 <= v["c2"] < n and 0 <= v["c3"] < n and 0 <= v["op2"] < 4 and 0 <= v["op3"] < 4:
+            tries.append((v["op2"], v["c2"], v["op3"], v["c3"]))
+        tries += [(o2, c2, o3, c3) for o2 in range(4) for c2 in range(n) for o3 in range(4) for c3 in range(n)]
+        for o2, c2, o3, c3 in tries:
+            p = run_steps(a["fidx"], a["c1"], o2, c2, o3, c3)
+            if p:
+                t = FIELDS[a["fidx"]][0]
+                return {"reproduced": True, "key": f"C05/{t}/{p.split(':', 1)[1][:40] if ':' in p else p[:40]}", "what": p[:700], "input": {"field": FIELDS[a["fidx"]], "history": [a["c1"], o2, c2, o3, c3]}}
+        return {"reproduced": False, "what": "three-step histories behave as specified"}
     if "O2-plumbing" in gid:
         v = cex_args(res, ["c1", "op2", "c2"])
         n = len(candidates(FIELDS[a["fidx"]][0]))
